@@ -80,7 +80,8 @@ UNITS = [
 ]
 PY_BEARING = {"block", "def", "multiexpr", "control", "loop", "calldef", "modblock"}
 
-RAISERS = ["expr", "expr-multiline", "block-line", "module-func", "control-cond", "attr-expr", "filter", "in-def", "block-oneline"]
+RAISERS = ["expr", "expr-multiline", "block-line", "module-func", "control-cond", "attr-expr", "filter", "in-def", "block-oneline",
+           "for-iterable-loop", "for-iterable", "while-cond", "def-call-arg"]
 
 
 def raiser(kind, k):
@@ -98,6 +99,14 @@ def raiser(kind, k):
         return "<%!\n    def helper9():\n" + "        z = 1\n" * k + "        boom()\n%>\n${helper9()}\n", 2 + k, [4 + k]
     if kind == "control-cond":
         return "% if boom():\nx\n% endif\n", 0, []
+    if kind == "for-iterable-loop":
+        return "% for i9 in boom():\n${loop.index}\n% endfor\n", 0, []
+    if kind == "for-iterable":
+        return "% for i9 in boom():\n${i9}\n% endfor\n", 0, []
+    if kind == "while-cond":
+        return "% while boom():\nx\n% endwhile\n", 0, []
+    if kind == "def-call-arg":
+        return '<%def name="ra9(a)">\nx\n</%def>\n' + "text\n" * k + "${ra9(boom())}\n", 3 + k, []
     if kind == "attr-expr":
         return '<%include file="${boom()}"/>\n', 0, []
     if kind == "filter":
@@ -343,6 +352,14 @@ def check_warning(case, ev=None):
         else:
             efile = fn
             go = lambda: Template(filename=fn, module_directory=os.path.join(d, "mod"))
+            if path == "moddir-reload":
+                # the module file already exists and is up to date (a restarted application): load it once unobserved
+                with warnings.catch_warnings(record=True):
+                    warnings.simplefilter("ignore")
+                    try:
+                        go()
+                    except Exception:
+                        pass
         warnings.onceregistry.clear()
         err = None
         with warnings.catch_warnings(record=True) as rec:
@@ -392,7 +409,7 @@ def run_subject(subject, ev, fails):
             fails.setdefault(f.key, f)
     for i, wkind in enumerate(WARNERS):
         action = ["always", "default", "once", "module", "error"][(n + i) % 5]
-        if action == "error" and wkind == "is-literal":
+        if action == "error" and (wkind == "is-literal" or subject["path"] == "moddir-reload"):
             # this warning comes from the code generator of CPython, i.e. only when the whole module is compiled; what an
             # error filter does then is not covered by the statement (nothing is "shown")
             action = "always"
